@@ -763,6 +763,12 @@ class Model:
                     total = interp.call(func, [total, x], {}, node)
                 out.append(total)
             return out
+        if path in ('itertools.takewhile', 'itertools.dropwhile') and len(args) == 2 and not isinstance(args[1], Opaque):
+            seq = list(interp.iterate(args[1], node))
+            n = 0
+            while n < len(seq) and interp.truth(interp.call(args[0], [seq[n]], {}, node), node):
+                n += 1
+            return GenResult(seq[:n] if path.endswith('takewhile') else seq[n:])
         if path == 'itertools.chain' and not any(isinstance(a, Opaque) for a in args):
             return [x for a in args for x in interp.iterate(a, node)]
         if path == 'itertools.islice' and len(args) >= 2 and all(isinstance(a, int) or a is None for a in args[1:]):
